@@ -1282,6 +1282,13 @@ func (ev *Env) builtinSpec(name string, argEs []Expr) (T, bool) {
 		vc.decl("iptr", "(declare-fun iptr (Int Int) Int)")
 		vc.regHeap("G_held", ghostSorts["G_held"])
 		return T{fmt.Sprintf("(select %s (iptr %s %d))", vc.heapGet(ev.st, "G_held"), base.S, index[0]), "Bool", boolT}, true
+	case "deref":
+		// deref(p): the value p points to
+		a := arg(0)
+		if _, ok := unalias(a.GT).Underlying().(*types.Pointer); !ok {
+			stale("deref of a non-pointer")
+		}
+		return ev.deref(a), true
 	case "tr":
 		// tr(k): always true; exists to be used as an explicit quantifier trigger "{tr(k)}" where the natural
 		// terms are arithmetic (positions in a byte stream) and make poor E-matching patterns
